@@ -3,7 +3,7 @@ CONSTANTS
   Fault = "none"
   Cfgs <- TC_Cfgs
   Soc0s <- SocAll
-  Dts <- Dt3
+  Dts <- Dt2
   Engs <- Bools
   ClsOn <- TC_On
   ClsOff <- ConvOff
